@@ -2,6 +2,8 @@
 From MD Require Import Lib.Base Model.Node Model.Codec.Percent Model.Dec.Ip Model.Dec.UrlPath Model.Dec.ReLib Model.Dec.UrlSplit Model.Dec.Network Model.Dec.NtPath Model.Dec.PathDec.
 From MD Require Import Proofs.IpProofs Proofs.UrlPathProofs Proofs.UrlSplitProofs Proofs.NetworkProofs Proofs.NtPathProofs Proofs.PathDecProofs.
 From MD Require Import Regex.LocalityProofs Proofs.RoundTrip Proofs.RoundTrip2 Proofs.RoundTrip3 Proofs.RoundTrip4 Proofs.RoundTrip5 Proofs.RoundTrip6.
+From MD Require Import Proofs.RoundTrip9.
+From MD Require Import Proofs.RoundTrip8.
 
 (* every part child's span selects the component text inside the URL text and its value is the decoded component (scheme lower-cased + MixedCase iff, path via normalize_path, query / fragment percent-decoded); only side condition: '//' present implies a non-empty authority (always true for nodes find_urls emits: is_url requires a host) *)
 Theorem C12_url_parts : forall (tlds : list bytes) (u : bytes) (r : split_result) (raw : bytes) (hs hn hq hf : bool) (kids : list node), urlsplit u = Ok r -> url_shape u r raw hs hn hq hf -> (hn = true -> sr_netloc r <> []) -> parse_url tlds u = Ok kids -> Forall (url_child tlds u r raw) kids.
@@ -77,6 +79,24 @@ Print Assumptions C12_url_parts_end_to_end.
 Theorem C12_windows_path_end_to_end : forall (is_domain : bytes -> bool) (pre : list N) (d : N) (segs : list bytes) (base ext suf : bytes), is_alpha_ascii d = true -> wsegs_ok segs = true -> wfile_ok base ext = true -> wpath_stop suf = true -> let form := wpath_form d segs (wfile base ext) in neutral Regexes.RE_path_WINDOWS_PATH_RE pre = true -> (2 * Datatypes.length form + 100 <= Backtrack.default_fuel)%nat -> let data := pre ++ form ++ suf in find_windows_path is_domain data = Hang \/ (exists rest : list node, find_windows_path is_domain data = Ok (Node WINDOWS_PATH_TYPE form [] (blen pre) (blen pre + blen form) (wpath_kids form base ext) :: rest) /\ Forall (fun nd : node => blen pre + blen form <= n_st nd) rest).
 Proof. exact find_windows_path_roundtrip_drive. Qed.
 Print Assumptions C12_windows_path_end_to_end.
+
+(* END TO END (Proofs/RoundTrip9.v): the UNC node the scanner reports carries the host child (network.domain at 2 .. 2+|host| of the value) and the file-name children at the positions of the value *)
+Theorem C12_unc_path_end_to_end : forall (tlds : list bytes) (pre : list N) (labels : list bytes) (tld share : bytes) (dirs : list bytes) (base ext suf : bytes), labels_ok labels = true -> tld_ok tld = true -> In (upper tld) tlds -> let host := dotted labels ++ tld in whost_ok host = true -> wsegs_ok (share :: dirs) = true -> wfile_ok base ext = true -> wpath_stop suf = true -> let form := wunc_form host (share :: dirs) (wfile base ext) in neutral Regexes.RE_path_WINDOWS_PATH_RE pre = true -> (2 * Datatypes.length form + 100 <= Backtrack.default_fuel)%nat -> let data := pre ++ form ++ suf in find_windows_path (is_domain tlds) data = Hang \/ (exists rest : list node, find_windows_path (is_domain tlds) data = Ok (Node UNC_PATH_TYPE form [] (blen pre) (blen pre + blen form) (Node DOMAIN_TYPE host [] 2 (2 + blen host) [] :: wpath_kids form base ext) :: rest) /\ Forall (fun nd : node => blen pre + blen form <= n_st nd) rest).
+Proof. exact find_windows_path_roundtrip_unc_domain. Qed.
+Print Assumptions C12_unc_path_end_to_end.
+
+Theorem C12_unc_host_child_spec : forall (is_domain : bytes -> bool) (host : bytes), host_kid_spec is_domain host 2 (wunc_host_kids is_domain host).
+Proof. exact wunc_host_kids_spec. Qed.
+Print Assumptions C12_unc_host_child_spec.
+
+(* END TO END (Proofs/RoundTrip8.v): scheme / host / port / path children at the positions of the value *)
+Theorem C12_url_port_parts_end_to_end : forall (tlds : list bytes) (pre : list N) (scheme : bytes) (labels : list bytes) (tld port path suf : bytes), url_scheme_ok scheme -> labels_ok labels = true -> tld_ok tld = true -> In (upper tld) tlds -> let host := dotted labels ++ tld in (URL_HOST_MIN <= Datatypes.length host <= URL_HOST_MAX)%nat -> port_ok port = true -> url_path_ok path = true -> url_stop suf = true -> let form := url_form scheme (hostport host port) path in neutral Regexes.RE_network_URL_RE pre = true -> url_ctx_ok pre form suf = true -> (Datatypes.length form + Datatypes.length (take_trail suf) + 200 <= Backtrack.default_fuel)%nat -> let data := pre ++ form ++ suf in find_urls tlds data = Hang \/ (exists rest : list node, find_urls tlds data = Ok (Node URL_TYPE form [] (blen pre) (blen pre + blen form) (url_port_kids scheme host port path) :: rest) /\ Forall (fun nd : node => blen pre + blen form <= n_st nd) rest).
+Proof. exact find_urls_roundtrip_port. Qed.
+Print Assumptions C12_url_port_parts_end_to_end.
+
+Theorem C12_url_ip_host_parts_end_to_end : forall (tlds : list bytes) (pre : list N) (scheme q path suf : bytes), url_scheme_ok scheme -> canonical_quad q = true -> url_path_ok path = true -> url_stop suf = true -> let form := url_form scheme q path in neutral Regexes.RE_network_URL_RE pre = true -> url_ctx_ok pre form suf = true -> (Datatypes.length form + Datatypes.length (take_trail suf) + 100 <= Backtrack.default_fuel)%nat -> let data := pre ++ form ++ suf in find_urls tlds data = Hang \/ (exists rest : list node, find_urls tlds data = Ok (Node URL_TYPE form [] (blen pre) (blen pre + blen form) (url_ip_kids scheme q path) :: rest) /\ Forall (fun nd : node => blen pre + blen form <= n_st nd) rest).
+Proof. exact find_urls_roundtrip_iphost. Qed.
+Print Assumptions C12_url_ip_host_parts_end_to_end.
 
 Example C12_example :
   normalize_path (L"/a/../../b/./%2e%2e/c%2Fd") = (L"/c%2Fd", L"url.dotpath").
